@@ -17,7 +17,7 @@ pub struct MT920 {
     pub field_20: Field20,
 
     /// Repetitive sequence (1-100 occurrences)
-    #[serde(rename = "#")]
+    #[serde(rename = "#", default)]
     pub sequence: Vec<MT920Sequence>,
 }
 
